@@ -20,7 +20,7 @@ PROPS = {
     "C12": {"profiles": ["traits", "member-instrs", "enum"], "n_quick": 4500},
     "C13": {"profiles": ["struct-flat", "enum", "tree", "trait-params", "unknowns"], "n_quick": 3600, "backends": ["s1", "s2"]},
     "C14": {"profiles": ["repeat", "trait-repeat"], "n_quick": 5400},
-    "C15": {"profiles": ["faults", "hostile", "parents", "trait-repeat", "unknowns"], "n_quick": 7200},
+    "C15": {"profiles": ["faults", "hostile", "parents", "trait-repeat", "unknowns", "shape-change"], "n_quick": 7200},
     "C16": {"profiles": ["hostile", "enum-prim", "tree", "faults", "parents", "unknowns", "member-instrs"], "n_quick": 9000},
     "C17": {"profiles": ["struct-flat", "enum", "tree", "trait-params", "generics", "shape-change"], "n_quick": 5400},
     "C18": {"profiles": ["hostile", "struct-flat", "enum", "tree", "unknowns"], "n_quick": 5400, "backends": ["s1", "s2"]},
@@ -823,6 +823,8 @@ FAULTS = [
     ("ghost-no-default", "should provide default value for type"),
     ("child-no-parents", "Missing #[child_parents(...)] instruction for"),
     ("repeat-param-conflict", "will be overriden. Did you forget to use 'skip_repeat'?"),
+    ("tuple-named-no-name", "should specify corresponding field name of the Zq7"),
+    ("untyped-nested-parent", "Field 'zq_t' should have type here"),
 ]
 
 
@@ -897,6 +899,40 @@ def inject_fault(it, kind, r):
         f = r.choice(cands)
         f.attrs = [a for a in f.attrs if a.name not in ("child", "parent")]
         f.attrs.insert(r.randrange(len(f.attrs) + 1), gen.Instr("child", "zq_base"))
+    elif kind == "tuple-named-no-name":
+        # positional type (or variant) against a named counterpart: the instruction dedicated to that counterpart gives
+        # an expression but no member name. Inserted at any position among the member's instructions, so that valid
+        # default instructions may precede or follow it
+        c = "Zq7"
+        nofield = lambda f: not any(a.name.startswith("ghost") or a.name in ("parent", "child") for a in f.attrs)
+        if it2.kind == "struct":
+            cands = [f for f in it2.fields if nofield(f)] if it2.shape == "tuple" else []
+            if not cands:
+                return None
+            it2.attrs.insert(r.randrange(len(it2.attrs) + 1), gen.Instr(r.choice(["owned_into", "ref_into", "into"]), c + " as {}", tag=("trait", c)))
+        else:
+            vs = [v for v in it2.variants if v.shape == "tuple" and any(nofield(f) for f in v.fields) and not any(a.name in ("ghost", "ghosts") for a in v.attrs)]
+            if not vs:
+                return None
+            v = r.choice(vs)
+            cands = [f for f in v.fields if nofield(f)]
+            it2.attrs.insert(r.randrange(len(it2.attrs) + 1), gen.Instr(r.choice(["owned_into", "ref_into", "into"]), c, tag=("trait", c)))
+            v.attrs.insert(r.randrange(len(v.attrs) + 1), gen.Instr("type_hint", c + "| as {}", tag=("th", None)))
+        f = r.choice(cands)
+        f.attrs.insert(r.randrange(len(f.attrs) + 1), gen.Instr(r.choice(["into", "map"]), c + "| ~.clone()"))
+        if r.random() < 0.5:
+            # a valid default instruction of the same kind in front of everything: the dedicated one still applies to Zq7
+            f.attrs.insert(0, gen.Instr(r.choice(["into", "map"]), "zq_f" + r.choice(["", ", ~.clone()"])))
+    elif kind == "untyped-nested-parent":
+        if it2.kind != "struct" or not it2.fields:
+            return None
+        c = "Zq8"
+        cands = [f for f in it2.fields if not any(a.name.startswith("ghost") for a in f.attrs)]
+        if not cands:
+            return None
+        it2.attrs.insert(r.randrange(len(it2.attrs) + 1), gen.Instr(r.choice(["from_owned", "from_ref", "from", "map"]), c, tag=("trait", c)))
+        f = r.choice(cands)
+        f.attrs.insert(r.randrange(len(f.attrs) + 1), gen.Instr("parent", c + "| [parent(zq_inner)] zq_t"))
     elif kind == "repeat-param-conflict":
         # a repeat template that covers a parameter kind, followed by an instruction of the same name that sets that
         # parameter itself without `skip_repeat` (whether or not the template sets it)
@@ -930,7 +966,7 @@ def oracle_c15(cases, seed, thorough):
         removers = ("no-trait-instr", "dup-default-where", "dup-default-ghosts", "ghost-no-default", "child-no-parents")
         ks.sort(key=lambda k: 0 if k[0] in removers else 1)
         names2 = [k[0] for k in ks]
-        if len(ks) == 2 and "no-trait-instr" in names2 and any(x in ("dup-instr", "missing-err", "extra-err", "ghost-no-default", "child-no-parents", "repeat-param-conflict") for x in names2):
+        if len(ks) == 2 and "no-trait-instr" in names2 and any(x in ("dup-instr", "missing-err", "extra-err", "ghost-no-default", "child-no-parents", "repeat-param-conflict", "tuple-named-no-name", "untyped-nested-parent") for x in names2):
             ks = [k for k in ks if k[0] == "no-trait-instr"]
         if len(ks) == 2 and {ks[0][0], ks[1][0]} == {"dup-default-where", "unknown-cpart-where"}:
             ks = ks[:1]
